@@ -98,7 +98,11 @@ def keyFmt (a : Alg) : List Piece :=
   if a.isBls then [.lit "BlsKeyPair { crv: ", .pub, .lit ", secret: Some(BlsSecretKey(0x", .secHex, .lit ")), public: ", .pub, .lit " }"]
   else redactedKey
 
-/-- `Debug` of the current tree -/
+/-- `Debug` of the current tree.
+    REPAIRS: when a redacting `Debug` lands (proposals/C20-D9.diff, -D16, -D17, -PostgresStoreOptions, -JwkParts) replace the
+    `.secText` / `.secHex` / `.secDecList` piece of the corresponding line by `.lit "<secret>"`; `leaky`, the driver's prediction
+    and `leaky_types_exactly` (Lemmas/SecretFmt.lean `leaky_iff`, Props/C20.lean) then have to drop that disjunct, and once no line
+    mentions the secret `fmt_noninterfering_iff` turns the refutation into the full theorem. -/
 def debugFmt : Ty → List Piece
   | .secretBytes => [.lit "<secret>"]
   | .arrayKey => [.lit "ArrayKey(\"<secret>\")"]
